@@ -243,9 +243,10 @@ PROPS = {
             "thorough": [("rel", {"timeout": 4 * 3600}), ("tsan", {"timeout": 4 * 3600}), ("miri", {"timeout": 5 * 3600})],
         },
         "floors": ["fault_corrupt-unit", "fault_truncated", "fault_zero-bytes", "fault_source-error@call",
-                   "fault_sink-error", "fault_worker-failure"],
+                   "fault_sink-error", "fault_worker-failure", "fault_worker-failure-during-dispatch"],
         "rule": "scenario = (MT reader x {valid, unit k corrupt, control byte corrupt, truncated at a sampled position, zero "
-                "bytes, missing terminator / cut trailer, source error kind K at read call j or at byte b, garbage} | MT "
+                "bytes, missing terminator / cut trailer, source error kind K at read call j or at byte b, garbage, a worker "
+                "that fails at once while the coordinator is busy cutting 40 000 one-byte units (10 trials per case)} | MT "
                 "writer x {no fault, sink error kind K at write call j, short writes, flush error, injected worker failure in "
                 "unit k, Interrupted} x write partition, mid-stream flushes, calls after an error) x worker count {1,2,4,16} "
                 "x seeded failpoint schedule. Every call runs under a watchdog whose firing only triggers the exact stuck "
